@@ -244,7 +244,7 @@ def explore_instance(job, part, max_states=None):
     spec, algo, params, props = job["spec"], job["algo"], job["params"], job["props"]
     world, shared, _ = build_world(spec, algo, params, tuple(job.get("unit_menu", (0.0, 0.999999))))
     ls = LsSpec(spec, algo, params, props)
-    ex = netx.Explorer(ls, shared=shared, max_states=max_states)
+    ex = netx.Explorer(ls, shared=shared, max_states=max_states, schedule=job.get("schedule", "all"))
 
     def report(key, what, w, hist):
         if not any(key.startswith(p + "|") for p in props):
@@ -404,7 +404,39 @@ def mgm_jobs(tier, props):
             fam_specs = [fs for i, fs in enumerate(fam_specs) if i % 4 == 0][:3]
         for label, spec in fam_specs:
             jobs.append({"spec": spec, "algo": "mgm2", "params": {"stop_cycle": k}, "props": list(props), "label": label})
+    jobs.extend(sweep_jobs(tier, props, algos=("mgm",)))
     return jobs
+
+
+def sweep_jobs(tier, props, algos=("mgm",)):
+    """Wide instance sweep under two canonical schedules (first / last enabled event): chain v0-v1-v2 with a unary
+    constraint on v2, all {0,1,2}-valued tables for c12, a menu for c01; every initial assignment and random answer is
+    still expanded. Targets sequential-logic defects that do not depend on the interleaving (stale views, wrong gain)."""
+    q = tier == "quick"
+    out = []
+    c01_menu = [[[0, 0], [0, 0]], B[2], B[0]] if q else [[[0, 0], [0, 0]]] + B
+    c12_all = list(gen.tables_01(2, 2, values=(0, 1, 2)))  # 81
+    if q:
+        c12_all = [t for i, t in enumerate(c12_all) if t[0][0] == 0 or i % 3 == 0]
+    unary = [[3, 0], [0, 0]] if q else [[3, 0], [0, 3], [0, 0], [1, 2]]
+    doms = {"v0": [0, 1], "v1": [0, 1], "v2": [0, 1]}
+    for algo in algos:
+        for a in c01_menu:
+            for b in c12_all:
+                for u in unary:
+                    for mode in ("min", "max"):
+                        spec = _spec(["v0", "v1", "v2"], doms, _cons([("v0", "v1"), ("v1", "v2"), ("v2",)], [a, b, u]), mode)
+                        for sched in ("first", "last"):
+                            out.append({"spec": spec, "algo": algo, "params": {"stop_cycle": 4}, "props": list(props),
+                                        "unit_menu": (0.5,) if algo == "mgm" else (0.0, 0.999999), "schedule": sched, "label": "sweep"})
+    return out
+
+
+def shard_batch(jobs):
+    part = Part()
+    for job in jobs:
+        explore_instance(job, part, max_states=job.get("max_states"))
+    return part
 
 
 def shard_job(job):
@@ -422,8 +454,13 @@ def run_jobs(ctx, jobs, rule):
         "random draws of the algorithm are explorer choice points: choice() over all elements, random()/uniform() over a 2-point menu below/above every threshold (MGM's unused tie-break number is fixed).",
     ]
     # biggest first for load balance
-    jobs = sorted(jobs, key=lambda j: -(len(j["spec"]["vars"]) * 10 + j["params"].get("stop_cycle", 1) + (20 if j["algo"] == "mgm2" else 0)))
-    ctx.pmap(shard_job, jobs)
+    full = [j for j in jobs if j.get("schedule", "all") == "all"]
+    sweep = [j for j in jobs if j.get("schedule", "all") != "all"]
+    full = sorted(full, key=lambda j: -(len(j["spec"]["vars"]) * 10 + j["params"].get("stop_cycle", 1) + (20 if j["algo"] == "mgm2" else 0)))
+    ctx.pmap(shard_job, full)
+    if sweep:
+        n = 64
+        ctx.pmap(shard_batch, [sweep[i::n] for i in range(n)])
     if ctx.part.counters.get("capped_instances"):
         ctx.exhaustive = False
         ctx.rule += f" CAP: {ctx.part.counters['capped_instances']} instance(s) hit the per-instance state cap; everything below the cap was fully explored."
